@@ -2041,3 +2041,77 @@ func ruleCheckOrder(p *Prog, r *Result) {
 	}
 	r.add(refreshed, "(*SelectStmt).ValidateFields|types-refreshed", p.Pos(vf.Pos()), "after the fields were checked their types are stored into FieldTypes from ReturnType")
 }
+
+// ---------------- NAMEOWNER ----------------
+
+func init() {
+	register("NAMEOWNER", "the field caches are keyed by field name, and a name can be given to several select fields (it stands for the first): wherever a projection reads a cached value for field i by FieldNames[i], the read is guarded by a test that no earlier field carries the same name (a package function comparing two elements of FieldNames, or such a comparison in place)", ruleNameOwner)
+}
+
+func ruleNameOwner(p *Prog, r *Result) {
+	ct := p.Named("ExecuteCtx")
+	pt := p.Named("ProjectionPlan")
+	if ct == nil || pt == nil {
+		r.undecided("anchor: ExecuteCtx / ProjectionPlan not found")
+		return
+	}
+	// reads of a cache by name: methods of ExecuteCtx that look a map field up with their name parameter and return the value
+	readers := map[*ssa.Function]bool{}
+	for _, m := range p.methodsOf(ct) {
+		if len(m.Params) < 2 || m.Signature.Results().Len() != 2 {
+			continue
+		}
+		allInstrs(m, func(in ssa.Instruction) {
+			if lk, ok := in.(*ssa.Lookup); ok && lk.Index == ssa.Value(m.Params[1]) && lk.CommaOk {
+				readers[m] = true
+			}
+		})
+	}
+	comparesNames := func(f *ssa.Function) bool {
+		found := false
+		allInstrs(f, func(in ssa.Instruction) {
+			bo, ok := in.(*ssa.BinOp)
+			if !ok || bo.Op != token.EQL && bo.Op != token.NEQ {
+				return
+			}
+			isNameElem := func(v ssa.Value) bool {
+				ld, ok := v.(*ssa.UnOp)
+				if !ok {
+					return false
+				}
+				ia, ok := ld.X.(*ssa.IndexAddr)
+				return ok && p.derivesFromField(ia.X, "ProjectionPlan", "FieldNames", traceOpts{})
+			}
+			if isNameElem(bo.X) && isNameElem(bo.Y) {
+				found = true
+			}
+		})
+		return found
+	}
+	n := 0
+	for _, fn := range p.methodsOf(pt) {
+		idx := 0
+		allInstrs(fn, func(in ssa.Instruction) {
+			c, ok := in.(*ssa.Call)
+			if !ok || !readers[c.Call.StaticCallee()] {
+				return
+			}
+			n++
+			idx++
+			guarded := false
+			for _, a := range dominatingAtoms(c.Block()) {
+				for _, v := range []ssa.Value{a.X, a.Y} {
+					if gc, ok := v.(*ssa.Call); ok {
+						if g := gc.Call.StaticCallee(); g != nil && p.InPkg(g) && comparesNames(g) {
+							if bv, isB := constBool(a.Y); isB && ((a.Op == token.EQL) == bv) {
+								guarded = true
+							}
+						}
+					}
+				}
+			}
+			r.add(guarded, fmt.Sprintf("%s|%s#%d", p.FName(fn), c.Call.StaticCallee().Name(), idx), p.InstrPos(c), "the cached value of a field name is read only for the first field that carries the name")
+		})
+	}
+	r.floor("reads of the field caches by name in the projection", n, 2)
+}
